@@ -316,6 +316,97 @@ theorem addLoop_applied (E : Env) (cfg : Cfg) (R : Round) (s : St) (k u : Nat) (
       · have := addRuleList_frame E cfg R s.rl a e k (fun h' => hk h'.symm)
         rw [this.1, this.2]; exact h
 
+/-! ### Order of the index entries -/
+
+/-- Two entries that may be exchanged without the loops noticing: they name different lists, or
+one of them has no valid key (and is skipped by both loops). -/
+def Indep (a b : Entry) : Prop := a.key ≠ b.key ∨ a.keyOk = false ∨ b.keyOk = false
+
+/-- Reorderings generated by exchanging adjacent independent entries: the relative order of the
+entries of one valid key (duplicates) is kept. -/
+inductive Reorder : List Entry → List Entry → Prop
+  | refl (l : List Entry) : Reorder l l
+  | swap (l₁ : List Entry) (a b : Entry) (l₂ : List Entry) (h : Indep a b) :
+      Reorder (l₁ ++ a :: b :: l₂) (l₁ ++ b :: a :: l₂)
+  | trans {l m n : List Entry} : Reorder l m → Reorder m n → Reorder l n
+
+theorem Reorder.cons (y : Entry) {l m : List Entry} (h : Reorder l m) : Reorder (y :: l) (y :: m) := by
+  induction h with
+  | refl l => exact .refl _
+  | swap l₁ a b l₂ h => exact .swap (y :: l₁) a b l₂ h
+  | trans _ _ ih1 ih2 => exact .trans ih1 ih2
+
+theorem reorder_insertBy (r : Entry → Nat) (hr : ∀ a b, r a ≠ r b → Indep a b) (x : Entry)
+    (ys : List Entry) : Reorder (x :: ys) (insertBy r x ys) := by
+  induction ys with
+  | nil => exact .refl _
+  | cons y ys ih =>
+    unfold insertBy
+    split
+    · exact .refl _
+    · next hlt =>
+      have hi : Indep x y := hr x y (by omega)
+      exact .trans (.swap [] x y ys hi) (Reorder.cons y ih)
+
+theorem reorder_isort (r : Entry → Nat) (hr : ∀ a b, r a ≠ r b → Indep a b) (es : List Entry) :
+    Reorder es (isort r es) := by
+  induction es with
+  | nil => exact .refl _
+  | cons x xs ih => exact .trans (Reorder.cons x ih) (reorder_insertBy r hr x (isort r xs))
+
+theorem foldl_swap {α β : Type} (f : α → β → α) (a b : β) (l₁ l₂ : List β)
+    (h : ∀ s, f (f s a) b = f (f s b) a) (s : α) :
+    (l₁ ++ a :: b :: l₂).foldl f s = (l₁ ++ b :: a :: l₂).foldl f s := by
+  simp [List.foldl_append, h]
+
+theorem put_comm {α : Type} (f : Nat → α) (k₁ k₂ : Nat) (v₁ v₂ : α) (h : k₁ ≠ k₂) :
+    put (put f k₁ v₁) k₂ v₂ = put (put f k₂ v₂) k₁ v₁ := by
+  funext x
+  by_cases h1 : x = k₁ <;> by_cases h2 : x = k₂ <;> simp_all [put]
+
+theorem addRuleList_comm (E : Env) (cfg : Cfg) (R : Round) (old : Nat → Option Nat) (acc : Acc)
+    (a b : Entry) (h : a.key ≠ b.key) :
+    addRuleList E cfg R old (addRuleList E cfg R old acc a) b =
+      addRuleList E cfg R old (addRuleList E cfg R old acc b) a := by
+  have h' : b.key ≠ a.key := fun e => h e.symm
+  by_cases ha : (acc.new a.key).isSome <;> by_cases hb : (acc.new b.key).isSome <;>
+    simp [addRuleList, ha, hb, h, h', put_other]
+  exact ⟨put_comm _ _ _ _ _ h, put_comm _ _ _ _ _ h⟩
+
+theorem keepPrev_comm (old new : Nat → Option Nat) (a b : Entry) (h : Indep a b) :
+    keepPrev old (keepPrev old new a) b = keepPrev old (keepPrev old new b) a := by
+  rcases h with h | h | h
+  · have h' : b.key ≠ a.key := fun e => h e.symm
+    by_cases ha : a.keyOk && (new a.key).isNone <;> by_cases hb : b.keyOk && (new b.key).isNone <;>
+      simp [keepPrev, ha, hb, h, h', put_other]
+    exact put_comm _ _ _ _ _ h
+  · simp [keepPrev, h]
+  · simp [keepPrev, h]
+
+theorem newLists_reorder (E : Env) (cfg : Cfg) (R : Round) (s : St) {es es' : List Entry}
+    (h : Reorder es es') : newLists E cfg R s es' = newLists E cfg R s es := by
+  induction h with
+  | refl l => rfl
+  | trans _ _ ih1 ih2 => rw [ih2, ih1]
+  | swap l₁ a b l₂ h =>
+    have hk : ∀ new : Nat → Option Nat, (l₁ ++ b :: a :: l₂).foldl (keepPrev s.rl) new =
+        (l₁ ++ a :: b :: l₂).foldl (keepPrev s.rl) new := fun new =>
+      (foldl_swap (keepPrev s.rl) a b l₁ l₂ (fun n => keepPrev_comm s.rl n a b h) new).symm
+    have ha : (toInternal (l₁ ++ b :: a :: l₂)).foldl (addRuleList E cfg R s.rl) ⟨fun _ => none, s.rlDisk⟩ =
+        (toInternal (l₁ ++ a :: b :: l₂)).foldl (addRuleList E cfg R s.rl) ⟨fun _ => none, s.rlDisk⟩ := by
+      by_cases hva : (a.keyOk && a.urlOk) = true <;> by_cases hvb : (b.keyOk && b.urlOk) = true
+      · have hne : a.key ≠ b.key := by
+          rcases h with h | h | h
+          · exact h
+          · simp [h] at hva
+          · simp [h] at hvb
+        simp only [toInternal, List.filter_append, List.filter_cons, hva, hvb, if_true]
+        exact (foldl_swap _ a b _ _ (fun acc => addRuleList_comm E cfg R s.rl acc a b hne) _).symm
+      · simp [toInternal, List.filter_append, hva, hvb]
+      · simp [toInternal, List.filter_append, hva, hvb]
+      · simp [toInternal, List.filter_append, hva, hvb]
+    simp only [newLists, ha, hk]
+
 /-- `keepPrev` leaves the slot of `k` alone once it holds the target. -/
 theorem keepLoop_target (s : St) (es : List Entry) (new : Nat → Option Nat) (k : Nat) (t : Option Nat)
     (h : new k = t) (ht : t = none → s.rl k = none) : es.foldl (keepPrev s.rl) new k = t := by
